@@ -24,7 +24,7 @@ pub struct Built {
 
 /// what each worker thread is compiling right now (watchdog: a compiler that does not terminate must not hang the check)
 static IN_FLIGHT: Mutex<Vec<(std::thread::ThreadId, std::time::Instant, String)>> = Mutex::new(Vec::new());
-fn in_flight_set(src: Option<&str>) {
+pub fn in_flight_set(src: Option<&str>) {
     let id = std::thread::current().id();
     let mut g = IN_FLIGHT.lock().unwrap();
     g.retain(|e| e.0 != id);
@@ -438,16 +438,21 @@ pub fn run_c17(ctx: &Ctx) {
     rep.finish();
 }
 
-fn spawn_watchdog(prop: &str) {
+pub fn spawn_watchdog(prop: &str) {
     let prop = prop.to_string();
     std::thread::spawn(move || loop {
         std::thread::sleep(std::time::Duration::from_secs(5));
-        let stuck = in_flight_longer_than(120);
+        let stuck = in_flight_longer_than(watchdog_secs());
         if let Some(src) = stuck.first() {
             let p = scratch_root().join(format!("stuck-{prop}.sw"));
             let _ = std::fs::write(&p, src);
-            eprintln!("INCONCLUSIVE: compiling a generated program has not terminated after 120 s; source saved to {}", p.display());
+            eprintln!("INCONCLUSIVE: compiling a generated program has not terminated within the watchdog limit; source saved to {}", p.display());
             std::process::exit(2);
         }
     });
+}
+
+/// watchdog limit for one compilation / case in seconds (VERIF_WATCHDOG, default 300)
+pub fn watchdog_secs() -> u64 {
+    std::env::var("VERIF_WATCHDOG").ok().and_then(|s| s.parse().ok()).unwrap_or(300)
 }
